@@ -6,6 +6,7 @@ import (
 	"fmt"
 	"os"
 	"path/filepath"
+	"regexp"
 	"sort"
 	"strings"
 
@@ -32,7 +33,8 @@ type Scenario struct {
 	Rm          bool   `json:"rm,omitempty"`
 	OutRel      string `json:"out_rel,omitempty"` // relative to the module root; "" = stdout
 	PkgVariant  string `json:"pkg_variant,omitempty"`
-	DirMode     string `json:"dir_mode,omitempty"` // octal mode given to the existing directory nearest to -out before the run
+	EmptyParent bool   `json:"empty_parent,omitempty"` // -out lies in a directory that exists and is empty before the run
+	DirMode     string `json:"dir_mode,omitempty"`     // octal mode given to the existing directory nearest to -out before the run
 }
 
 func (s *Scenario) toMap() map[string]any {
@@ -137,7 +139,7 @@ func (h *H) drawCase(rt *rapid.T, prop string, excl map[string]int) *core.Case {
 			}
 		}
 		n := g.Int(3, 7)
-		acts := []string{"gen", "gen-rm", "scribble:absent", "scribble:own", "scribble:other", "scribble:bytes", "scribble:badgo", "scribble:clash", "scribble:symlink", "scribble:danglink", "evolve", "gen", "gen-rm", "gen"}
+		acts := []string{"gen", "gen-rm", "scribble:absent", "scribble:own", "scribble:other", "scribble:bytes", "scribble:badgo", "scribble:clash", "scribble:symlink", "scribble:danglink", "scribble:foreign", "scribble:foreign", "evolve", "gen", "gen-rm", "gen"}
 		for i := 0; i < n; i++ {
 			s.Actions = append(s.Actions, g.Pick(acts))
 		}
@@ -150,7 +152,7 @@ func (h *H) drawCase(rt *rapid.T, prop string, excl map[string]int) *core.Case {
 		s.Kind = "fault"
 		s.Prior = g.Pick([]string{"absent", "bytes", "good", "longer", "longer", "otherfmt", "crlf"})
 		s.Rm = g.Chance(35)
-		faults := []string{"none", "none", "none", "none", "none", "none", "noargs", "onearg", "srcmissing", "srcempty", "syntaxerr", "typeerr", "twopkgs", "badarg", "badarg", "badarg",
+		faults := []string{"badflag", "none", "none", "none", "none", "none", "none", "noargs", "onearg", "srcmissing", "srcempty", "syntaxerr", "typeerr", "twopkgs", "badarg", "badarg", "badarg",
 			"mkdirfail", "outisdir", "outisemptydir", "immutable", "immutabledir", "longname", "rmfail", "fsize", "stdout", "badarg-stdout", "stdoutfull"}
 		if prop == "C18" {
 			// side effects of SUCCESSFUL runs matter as much as those of failing ones
@@ -188,6 +190,14 @@ func (h *H) drawCase(rt *rapid.T, prop string, excl map[string]int) *core.Case {
 		default:
 			s.OutRel = dir + "/sub/" + name
 		}
+		if g.Chance(12) {
+			s.OutRel = "prepared/empty/" + name
+			s.EmptyParent = true
+		}
+		if s.Fault == "badflag" {
+			// the flag package's own failure point: an undefined flag or an unparsable value in front of valid arguments
+			s.BadArg = g.Pick([]string{"-stubb", "-with-resets=maybe", "-rm=2", "--no-such-flag", "-skip-ensure=", "-stub=yes please", "-fmtt=gofmt"})
+		}
 		if s.Fault == "stdout" || s.Fault == "badarg-stdout" || s.Fault == "stdoutfull" {
 			s.OutRel = ""
 			s.Rm = false
@@ -219,6 +229,12 @@ func (h *H) drawCase(rt *rapid.T, prop string, excl map[string]int) *core.Case {
 		}
 		if s.Fault == "rmfail" {
 			s.Rm = true
+		}
+		if s.EmptyParent && (s.Prior != "absent" || s.Fault == "immutable" || s.Fault == "outisdir" || s.Fault == "outisemptydir" || s.Fault == "rmfail" || s.Fault == "mkdirfail" || s.Fault == "immutabledir" || s.OutRel == "") {
+			s.EmptyParent = false // the directory would not be empty / is not used
+			if strings.HasPrefix(s.OutRel, "prepared/empty/") {
+				s.OutRel = name
+			}
 		}
 	}
 	// -out is given relative to the working directory in 40% of the cases
@@ -360,6 +376,41 @@ func readState(p string) (exists bool, isDir bool, content []byte) {
 	return true, false, b
 }
 
+var (
+	srcImportRe = regexp.MustCompile(`(?m)^\s*(?:[A-Za-z_][A-Za-z0-9_]*\s+)?"([^"]+)"\s*$`)
+	typeDeclRe  = regexp.MustCompile(`(?m)^type ([A-Z][A-Za-z0-9_]*) (?:struct|int|string|interface)`)
+)
+
+// foreignFile builds a compiling file of the source package which imports one of the world's own packages that the
+// source files import too, under another alias, and uses it.
+func foreignFile(c *core.Case) []byte {
+	var names []string
+	for name := range c.Files {
+		names = append(names, name)
+	}
+	sort.Strings(names)
+	for _, name := range names {
+		if !strings.HasPrefix(name, c.SrcDir+"/") || !strings.HasSuffix(name, ".go") || strings.Count(name, "/") != strings.Count(c.SrcDir, "/")+1 {
+			continue
+		}
+		for _, m := range srcImportRe.FindAllStringSubmatch(c.Files[name], -1) {
+			path := m[1]
+			if !strings.HasPrefix(path, c.ModPath+"/") {
+				continue
+			}
+			dir := strings.TrimPrefix(path, c.ModPath+"/")
+			for _, dn := range names {
+				if strings.HasPrefix(dn, dir+"/") && strings.Count(dn, "/") == strings.Count(dir, "/")+1 && strings.HasSuffix(dn, ".go") {
+					if t := typeDeclRe.FindStringSubmatch(c.Files[dn]); t != nil {
+						return []byte("package " + c.SrcName + "\n\n// written by hand\n\nimport zzforeign \"" + path + "\"\n\nvar _ zzforeign." + t[1] + "\n")
+					}
+				}
+			}
+		}
+	}
+	return nil
+}
+
 // readStateL is readState for a path that may be a symbolic link: a link exists even when it dangles, and its
 // state is "link" plus whatever can be read through it.
 func readStateL(p string) (exists, isDir bool, content []byte) {
@@ -471,6 +522,13 @@ func (h *H) evalHistory(c *core.Case, s *Scenario, dir, world string, r *run) {
 			case "clash":
 				first := oracle.Requests(c.Cfg.Args)[0]
 				content = []byte("package " + c.SrcName + "\n\ntype " + first.Mock + " struct{ Stale int }\n")
+			case "foreign":
+				// a hand-written file that compiles, carries no moq marker and imports a package of the world under
+				// an alias of its own
+				content = foreignFile(c)
+				if content == nil {
+					continue
+				}
 			case "symlink", "danglink":
 				// the -out path is a symbolic link: to stale non-compiling content kept elsewhere, or to nothing
 				target := filepath.Join(dir, "linktarget_"+kind+".go.txt")
